@@ -1768,6 +1768,17 @@ class Authenticated(BaseClientHandler):
         # We use the idling hack so EXPUNGE notifications are delivered
         # immediately to this client.
         #
+        # The source mailbox was released while the copies were filed in the
+        # destination: another client may have deleted it meanwhile (its
+        # messages went with it). As for any other command on a selected
+        # mailbox that no longer exists the client is told so and disconnected.
+        #
+        if self.mbox is None:
+            await self.unceremonious_bye(
+                "Your selected mailbox no longer exists"
+            )
+            return None
+
         expunge_cmd = IMAPClientCommand("A001 EXPUNGE")
         expunge_cmd.command = IMAPCommand.EXPUNGE
         expunge_cmd.forced_expunge = True
